@@ -36,6 +36,8 @@ def callbacks_non_null(s, b):
 class WrapBucket(Contract):
     """wrap_bucket(offset): cur_bucket < 25  ==>  returns (cur_bucket + offset) mod 25; nothing written"""
     name = "wrap_bucket"
+    helper = True          # static; which bucket stands for `offset frames ahead` is a representation choice of tdma_sched.c (the callers' contracts
+                           # use this contract; whether the scheduler as a whole still behaves is the statement-level oracle's question)
 
     def params(self, c):
         c.int("offset")
@@ -141,6 +143,7 @@ class BucketSort(Contract):
     Loop 1 (seq[i] = i, 8 iterations: structural constant) is unrolled; loops 2 and 3 (selection sort) carry the usual
     invariants, written out over the 8 slots (no quantifier)."""
     name = "_tdma_sched_bucket_sort"
+    helper = True
     N = RV.CAP
     roles = {"i": ("ivar", 2), "j": ("ivar", 3)}      # outer / inner index of the selection sort (loops 2 and 3), whatever they are called
 
